@@ -20,7 +20,7 @@ def main():
         if a == "-bin": binp = args.pop(0)
         elif a == "-j": jobs = int(args.pop(0))
         else: filt.append(a)
-    seeds = [s for s in sorted(os.listdir("/verif/seeded")) if not filt or any(f in s for f in filt)]
+    seeds = [s for s in sorted(os.listdir("/verif/seeded")) if os.path.isdir("/verif/seeded/" + s) and (not filt or any(f in s for f in filt))]
     root = "/tmp/seedpar.%d" % os.getpid()
     os.makedirs(root)
     try:
@@ -48,10 +48,10 @@ def main():
                     res = ("PATCH-FAILS", [], out)
                 else:
                     od = "%s/out%d" % (root, k)
-                    rc, out = sh("rm -rf %s && mkdir -p %s && %s -repo %s -property all -tier quick -outdir %s; rc=$?; rm -rf %s; exit $rc" % (od, od, binp, d, od, od), cwd="/verif")
+                    rc, out = sh("rm -rf %s && mkdir -p %s && timeout 600 %s -repo %s -property all -tier quick -outdir %s; rc=$?; rm -rf %s; exit $rc" % (od, od, binp, d, od, od), cwd="/verif")
                     fired = re.findall(r"VIOLATION property=(\S+)", out)
                     infra = "infrastructure failure" in out
-                    panic = "checker panic" in out
+                    panic = "checker panic" in out or rc == 124  # 124: the checker did not finish within 10 minutes
                     res = ("exit=%d%s%s" % (rc, " INFRA" if infra else "", " PANIC" if panic else ""), fired, out)
                 # restore the copy
                 shutil.rmtree(d); os.makedirs(d)
